@@ -2452,6 +2452,26 @@ func (d *Document) parseRun(decoder *xml.Decoder, startElement xml.StartElement)
 					return nil, err
 				}
 				run.Drawing = drawing
+			case "br":
+				// 换行/分页符
+				run.Break = &Break{Type: getAttributeValue(t.Attr, "type")}
+				if err := d.skipElement(decoder, t.Name.Local); err != nil {
+					return nil, err
+				}
+			case "fldChar":
+				// 域字符
+				run.FieldChar = &FieldChar{FieldCharType: getAttributeValue(t.Attr, "fldCharType")}
+				if err := d.skipElement(decoder, t.Name.Local); err != nil {
+					return nil, err
+				}
+			case "instrText":
+				// 域指令文本
+				space := getAttributeValue(t.Attr, "space")
+				content, err := d.readElementText(decoder, "instrText")
+				if err != nil {
+					return nil, err
+				}
+				run.InstrText = &InstrText{Space: space, Content: content}
 			default:
 				if err := d.skipElement(decoder, t.Name.Local); err != nil {
 					return nil, err
